@@ -131,6 +131,13 @@ func (p *BlockParser) NextBlock() (*RootBlock, error) {
 		}
 		if hasText {
 			addLineText(lp)
+		} else {
+			// A line consumed as a whole (ATX heading, thematic break, code fence)
+			// is not blank, so it ends any run of blank lines
+			// for the purpose of checking for list looseness.
+			for c := lp.container; c != nil; c = findParent(&lp.root, c) {
+				c.lastLineBlank = false
+			}
 		}
 		if next := p.makeRoot(lp.root.blockChildren); next != nil {
 			return next, nil
